@@ -1,6 +1,8 @@
 INIT Init
 NEXT Next
 CONSTANTS
+  Rep0 = "all"
+  Convs <- NoConvs
   Starts <- IdentOnly
   Leaves <- Gens3
   Exps <- ExpsFull
